@@ -49,7 +49,11 @@ def gen(seed):
     if rng.random() < 0.2:
         opt['m'] = pats(rng, ['test_m0', 'test_m1', 'tests', 'nomatch', 'm[01]$'])
     if rng.random() < 0.35:
-        opt['layer'] = pats(rng, L_FRAGS)
+        # (also the world's own layer names - which may be prefixes of each other - whole,
+        # anchored and cut short)
+        own = [L['name'] for L in world['layers']]
+        frags = L_FRAGS + own + [n + '$' for n in own] + [r'\.' + n[:2] for n in own]
+        opt['layer'] = pats(rng, frags)
     r = rng.random()
     if r < 0.25:
         opt['at_level'] = rng.choice([0, 1, 2, 3, -1])
